@@ -45,7 +45,7 @@ OUTCOMES = ["ok-silent", "ok-stderr", "reject", "killed", "java-absent", "corrup
 ENTRIES = ["lib", "cli", "cli-json", "cli-skip", "cli-odk"]
 FORMS = ["valid", "warn", "ext", "invalid"]
 REQUIRED_LABELS = [f"outcome:{o}" for o in OUTCOMES] + [f"entry:{e}" for e in ENTRIES] + [f"form:{f}" for f in FORMS + ["generated"]] + \
-    ["line:path", "line:kept-path", "line:prefix", "line:stack", "line:dup", "validator-started", "verdict:accept", "verdict:reject"]
+    ["line:path", "line:kept-path", "line:prefix", "line:stack", "line:dup", "line:non-utf8", "validator-started", "verdict:accept", "verdict:reject"]
 
 REAL_JAVA = shutil.which("java")
 
@@ -59,7 +59,7 @@ FIXTURES = {
             "ext": [{"list_name": "cities", "name": "a", "label": "A", "state": "x"}, {"list_name": "cities", "name": "b", "state": "y"}]},
     "invalid": {"nodes": [{"k": "q", "c": {"type": "text", "name": "q1", "label": "see ${nosuch}"}}]},
 }
-FIXED_STDERR = [["p", "Error: could not evaluate ", "/data/g/age", ""], ["l", "Something about the form"], ["p", "Problem near ", "/data/g/age", " here"], ["k", "Dependency cycle at ", "/html/body/input", "."],
+FIXED_STDERR = [["p", "Error: could not evaluate ", "/data/g/age", ""], ["p", "deep ", "/data/g1/g2/g3/g4/g5/deep_q", " is cyclic"], ["l", "Something about the form"], ["p", "Problem near ", "/data/g/age", " here"], ["k", "Dependency cycle at ", "/html/body/input", "."],
                 ["x", "java.lang.RuntimeException: ", "wrapped message"], ["s", "\tat org.javarosa.core.Model.run(Model.java:12)"],
                 ["d", "duplicated line"], ["l", "Résultat: Invalid XPath"]]
 
@@ -72,10 +72,16 @@ SEGS = ["data", "g", "grp_1", "age", "my-field", "q1", "meta", "instanceID", "Re
 
 
 def render_lines(lines):
-    """grammar lines -> (raw stderr text, expected cleaned lines)"""
+    """grammar lines -> (raw stderr text, expected cleaned lines).  A 'b' line carries bytes that are not UTF-8: the whole stream is then
+    read as latin-1 (the documented fallback of decode_stream), which the expectation mirrors line by line."""
     raw, exp = [], []
+    non_utf8 = any(ln[0] == "b" for ln in lines)
     for ln in lines:
         kind = ln[0]
+        if kind == "b":
+            raw.append(bytes.fromhex(ln[1]))
+            exp.append(bytes.fromhex(ln[1]).decode("latin-1"))
+            continue
         if kind == "l":
             raw.append(ln[1])
             exp.append(ln[1])
@@ -93,7 +99,11 @@ def render_lines(lines):
         elif kind == "d":      # adjacent duplicate: collapsed
             raw.extend([ln[1], ln[1]])
             exp.append(ln[1])
-    return "\n".join(raw) + "\n", exp
+    data = b"\n".join(x if isinstance(x, bytes) else x.encode("utf-8") for x in raw) + b"\n"
+    if non_utf8:
+        exp = [e if any(isinstance(r_, bytes) and r_.decode("latin-1") == e for r_ in raw) else e.encode("utf-8").decode("latin-1") for e in exp]
+        return data.decode("latin-1"), exp, data
+    return data.decode("utf-8"), exp, data
 
 
 def gen_lines(g):
@@ -107,7 +117,7 @@ def gen_lines(g):
         if kind == "l":
             ln = ["l", text]
         elif kind == "p":
-            path = "/" + "/".join(g.pick(SEGS) for _ in range(g.integer(2, 4)))
+            path = "/" + "/".join(g.pick(SEGS) for _ in range(g.pick([2, 3, 3, 4, 5, 6, 7, 9])))
             if path.startswith(("/html/body", "/root/item", "/html/head/model/bind")) or path.endswith("/item/value"):
                 path = "/data/q1"
             ln = ["p", text + " ", path, g.pick(["", " is wrong", ".", ")"])]
@@ -125,6 +135,9 @@ def gen_lines(g):
         last_text = text
     if out[0][0] == "s":
         out.insert(0, ["l", "First line"])
+    if g.p("_", 0.15):
+        # a console code page that is not UTF-8 (e.g. cp850 u-umlaut 0x81): the stream is read as latin-1
+        out.insert(g.integer(0, len(out)), ["b", (b"Ung" + bytes([g.pick([0x81, 0x8d, 0x8f, 0x90, 0x9d, 0xfc, 0xe9])]) + b"ltig " + g.pick(WORDS[:8]).encode("ascii")).hex()])
     if g.p("_", 0.3):
         # validators often start with an 'Error: ' line; only the jar launcher's own 'Unable to access jarfile' text is passed through as is
         out.insert(0, ["p", g.pick(["Error: ", "Error: evaluating field ", ">> Error: "]) + "bad node ", "/data/" + g.pick(SEGS) + "/" + g.pick(SEGS), ""])
@@ -191,7 +204,7 @@ class Box:
         self.tmp = os.path.join(self.root, "tmp")
         self.out = os.path.join(self.root, "out")
         outcome = case["outcome"]
-        raw, self.expected_lines = render_lines(case["stderr"])
+        raw, self.expected_lines, raw_bytes = render_lines(case["stderr"])
         self.raw = raw
         path_dirs = [os.path.join(self.root, "bin")]
         if outcome == "corrupt-jar":
@@ -203,8 +216,8 @@ class Box:
                 f.write(JAVA_SCRIPT)
             os.chmod(jp, os.stat(jp).st_mode | stat.S_IEXEC)
             if outcome in ("ok-stderr", "reject"):
-                with open(os.path.join(self.scn, "stderr"), "w", encoding="utf-8") as f:
-                    f.write(raw)
+                with open(os.path.join(self.scn, "stderr"), "wb") as f:
+                    f.write(raw_bytes)
             if outcome == "reject":
                 with open(os.path.join(self.scn, "exit"), "w") as f:
                     f.write(str(case.get("exit", 1)))
@@ -327,7 +340,7 @@ def _evaluate(case, box, out):
     cell = f"{outcome}|{entry}"
     out.label(f"outcome:{outcome}", f"entry:{entry}", f"form:{case['form']}")
     for ln in case["stderr"]:
-        out.label({"l": "line:plain", "p": "line:path", "k": "line:kept-path", "x": "line:prefix", "s": "line:stack", "d": "line:dup"}[ln[0]])
+        out.label({"l": "line:plain", "p": "line:path", "k": "line:kept-path", "x": "line:prefix", "s": "line:stack", "d": "line:dup", "b": "line:non-utf8"}[ln[0]])
     src = write_input(box, case)
     ref = reference(src, pretty if entry != "lib" else pretty)
     if ref["status"] == "crash":
